@@ -67,6 +67,10 @@ def validation(ctx: Ctx):
                     if st != "ok":
                         ctx.violation(f"{name} rejected ({out}) a finite {list(shape)} matrix that meets its row-count "
                                       f"requirement", rp)
+                    elif tuple(out.shape) != (shape[1],) or out.dtype != t.dtype or not bool(torch.isfinite(out).all()):
+                        ctx.violation(f"{name} maps a finite {list(shape)} matrix that meets its row-count requirement to "
+                                      f"{out.tolist()} (shape {tuple(out.shape)}, {out.dtype}): not a finite vector with one "
+                                      f"entry per column in the dtype of the input", rp)
 
 
 def ctor_validation(ctx: Ctx):
